@@ -223,9 +223,19 @@ fn norm_path(p: &str) -> String {
 
 /// Replace runs of digits by `#` so that messages with indices compare equal.
 fn norm_msg(m: &str) -> String {
+    // messages that quote input text ("... of `<text>`", "... inside 'x' ...") are cut before the quote
+    let m = match m.find(" of `") {
+        Some(i) => &m[..i],
+        None => m,
+    };
+    let m = match m.find("; it is inside") {
+        Some(i) => &m[..i],
+        None => m,
+    };
     let mut out = String::with_capacity(m.len());
     let mut in_digits = false;
-    for c in m.chars().take(160) {
+    for c in m.chars().take(120) {
+        let c = if c.is_ascii() { c } else { '?' };
         if c.is_ascii_digit() {
             if !in_digits {
                 out.push('#');
